@@ -78,6 +78,7 @@ impl<'a> ZipFile<'a> {
 //@use zipfile_name nobody
 //@use zipfile_get_raw_reader nobody
 //@use zipfile_encrypted nobody
+//@use zipfile_is_dir nobody
 }
 impl CentralDirectoryEnd {
 //@use cde_find_and_parse nobody
